@@ -34,6 +34,7 @@ type c09LendMon struct {
 	maxLenB   map[uint64]int
 	survivedV map[uint64]int
 	maxLenV   map[uint64]int
+	missing   map[uint64]bool // open borrows already reported as missing from the sweep's list
 }
 
 // borrowRatio returns debt value Y and collateral value X at the current prices, and the applicable threshold.
@@ -170,6 +171,27 @@ func (m *c09LendMon) block(dt time.Duration) {
 	post := e.snap()
 	postV := m.vaults()
 	m.handOver(pre, post, preA, m.aux(), "sweep", fmt.Sprintf("block at height %d", e.c.Header.Height))
+	// the sweep walks the borrow ids of the pools' statistics records: an open borrow that is not on that list can
+	// never be seized, however unsafe it becomes
+	if m.missing != nil {
+		swept, _ := e.c.App.LendKeeper.GetBorrows(e.c.Ctx())
+		on := map[uint64]bool{}
+		for _, id := range swept {
+			on[id] = true
+		}
+		for id, b := range post.borrows {
+			if b.IsLiquidated {
+				continue
+			}
+			m.rec.Eval(1)
+			if !on[id] && !m.missing[id] {
+				m.missing[id] = true
+				m.rec.Violate("C09/liveness/borrow-gen2/open-borrow-not-on-the-list-the-sweep-walks", "an open borrow is missing from the borrow-id lists of the pool statistics, the only list the liquidation sweep walks",
+					map[string]interface{}{"borrow": id, "pair": b.PairID, "lend_position": b.LendingID, "sweep_list": fmt.Sprint(swept), "history_tail": e.tail(6)})
+			}
+		}
+		m.rec.Count("sweep_list_membership_checks", 1)
+	}
 	nB, nV := len(pre.borrows), len(preV)
 	// ---- borrows
 	ids := make([]uint64, 0, len(pre.borrows))
@@ -319,7 +341,7 @@ func c09LendRun(t *testing.T, rec *ev.Rec, run int) {
 	must(t, c.Gov(bindings.ComdexMessages{MsgAddExtendedPairsVault: &bindings.MsgAddExtendedPairsVault{AppID: e.u.App, PairID: pairID, StabilityFee: dec("0"), ClosingFee: dec("0"), LiquidationPenalty: dec("0.1"), DrawDownFee: dec("0"),
 		IsVaultActive: true, DebtCeiling: sdk.NewInt(1_000_000_000_000_000), DebtFloor: sdk.NewInt(1_000_000), MinCr: dec("1.5"), PairName: "ATOM-V", AssetOutOraclePrice: true, AssetOutPrice: 1_000_000, MinUsdValueLeft: 100_000}}))
 	prodID := c.App.AssetKeeper.GetPairsVaultID(c.Ctx())
-	m := &c09LendMon{e: e, rec: rec, batch: batch, prodID: prodID, atom: atom, vusdID: vusd.Id, minCr: big.NewRat(3, 2), survivedB: map[uint64]int{}, maxLenB: map[uint64]int{}, survivedV: map[uint64]int{}, maxLenV: map[uint64]int{}}
+	m := &c09LendMon{e: e, rec: rec, batch: batch, prodID: prodID, atom: atom, vusdID: vusd.Id, minCr: big.NewRat(3, 2), survivedB: map[uint64]int{}, maxLenB: map[uint64]int{}, survivedV: map[uint64]int{}, maxLenV: map[uint64]int{}, missing: map[uint64]bool{}}
 	createVault := func(a int, crPermille int64) {
 		pin, _ := e.u.Price(atom.ID)
 		debt := int64(5_000_000 + e.rnd.Intn(50_000_000))
@@ -351,9 +373,17 @@ func c09LendRun(t *testing.T, rec *ev.Rec, run int) {
 			}
 			e.txStep()
 		case x < 57:
-			m.liquidateMsg(2)
+			if e.rnd.Intn(8) == 0 {
+				m.exactThresholdProbe(2)
+			} else {
+				m.liquidateMsg(2)
+			}
 		case x < 61:
-			m.liquidateMsg(1)
+			if e.rnd.Intn(5) == 0 {
+				m.exactThresholdProbe(1)
+			} else {
+				m.liquidateMsg(1)
+			}
 		case x < 62:
 			if !m.bidGen1() {
 				e.txStep()
